@@ -144,6 +144,13 @@ theorem all_cli_sites_pass_not_no_warnings :
     ∀ c ∈ callSites, c.cli = true → c.confirm = "not args.no_warnings" := by
   decide
 
+/-- **no_assignment_to_confirm_flags**: nowhere in evo/ is an attribute that a `confirm_overwrite`
+expression reads (`args.no_warnings`) assigned, deleted or set through `setattr`: the value every call
+site negates is the one the user gave on the command line (or in the `-c` file). -/
+theorem no_assignment_to_confirm_flags :
+    flagAssignments = [] ∧ "no_warnings" ∈ flagAttributes := by
+  decide
+
 /-- the (module, writer) pairs behind the output options of the four commands -/
 def expectedSites : List (String × String) :=
   [("evo/main_ape.py", "save_res_file"), ("evo/main_rpe.py", "save_res_file"),
